@@ -116,6 +116,18 @@ fn base_models() -> Vec<(Model, Vec<u8>)> {
         (Model { trans: vec![(-1_691_964_000, 2), (-57_722_400, 3), (57_722_400, 4), (2_000_000_000, 2)], types: vec![ty(-75, false, "LMT"), ty(0, false, "GMT"), ty(3600, true, "BST"), ty(3600, false, "BST")], leaps: 0, rule: Rule::Fixed(ty(0, false, "GMT")) }, vec![2]),
     ]
 }
+/// Synthetic zone files for C05's lookups: the base files plus shapes the tz database does not contain (a DST type listed FIRST, so the
+/// type in force before the first transition is a DST type; a single type with transitions; abbreviation-only changes)
+pub fn lookup_models() -> Vec<(String, Vec<u8>)> {
+    let mut ms = base_models();
+    ms.push((Model { trans: vec![(-1_000_000_000, 2), (86_400 * 200, 1), (86_400 * 400, 2), (86_400 * 600, 3)],
+                     types: vec![ty(7200, true, "CEST"), ty(3600, false, "CET"), ty(10_800, true, "CEMT")], leaps: 0, rule: Rule::None }, vec![1, 2]));
+    ms.push((Model { trans: vec![(0, 2), (500_000_000, 1), (1_000_000_000, 2)], types: vec![ty(-10_800, true, "ADT"), ty(-14_400, false, "AST")], leaps: 0, rule: Rule::Fixed(ty(-14_400, false, "AST")) }, vec![2]));
+    ms.push((Model { trans: vec![(500_000_000, 2)], types: vec![ty(34_200, true, "XDT"), ty(30_600, true, "YDT")], leaps: 0, rule: Rule::None }, vec![2]));
+    let mut out = Vec::new();
+    for (i, (m, vers)) in ms.iter().enumerate() { for &v in vers { out.push((format!("synthetic-{}-v{}", i, v), write_tzif(m, v, false).0)); } }
+    out
+}
 fn put32(b: &mut [u8], at: usize, v: u32) { b[at..at + 4].copy_from_slice(&v.to_be_bytes()); }
 fn get32(b: &[u8], at: usize) -> u32 { u32::from_be_bytes([b[at], b[at + 1], b[at + 2], b[at + 3]]) }
 
